@@ -10,9 +10,9 @@ def run(tier, argv):
     # (i) mh on finite dyadic models: TLC checks detailed balance (as the weight identity, see GFI.tla DetailedBalance) for every
     #     observed-data pattern (generate with any constraint), selection, proposal outcome and accept/reject; incl. the
     #     mixture-indicator move (fc, fa, fd: a selected choice decides the branch of a Cond whose own choices are observed)
-    plans = [("a", ["f2", "fd", "fc"], 3), ("b", ["fa", "fs", "fb"], 1)]
+    plans = [("a", ["f2", "fd", "fc"], 3), ("b", ["fa", "fs", "fb"], 1), ("c", ["cTF", "cdd"], 2)]      # c: the trace's own gen_fn is a Cond
     if tier != "quick":
-        plans = [("a", ["f2", "fd", "fc", "fa"], 3), ("b", ["fs", "fvf", "fn3", "fv"], 1)]
+        plans = [("a", ["f2", "fd", "fc", "fa"], 3), ("b", ["fs", "fvf", "fn3", "fv"], 1), ("c", ["cTF", "cdd", "c2"], 2)]
     for tag, progs, maxc in plans:
         cfg = gficheck.write_cfg(f"C09_{tier}_{tag}.cfg", progs, 2, ["generate", "mh"], maxc, "same", INV, sim_scripts="few")
         info = gficheck.run_config(chk, cfg, {"mh"}, variant="eager", min_depth=2, max_replay=500 if tier == "quick" else 8000,
